@@ -12,14 +12,20 @@ type PropDef struct {
 var propOrder = []string{"C01", "C02", "C03", "C04", "C05", "C06", "C07", "C08", "C09", "C11", "C12", "C13", "C14", "C15", "C16", "C17", "C18", "C19", "C20"}
 
 var props = map[string]*PropDef{
+	"C11": {
+		Rules:      []string{"TABLE-ESC", "SINK-1", "OPT-1"},
+		Decided:    "(in progress)",
+		NotDecided: "(in progress)",
+		Technique:  "table evaluation + sink audit",
+	},
 	"C07": {
-		Rules:      []string{"NAMES-1", "BUF-1", "STALE-3", "FP-3", "FP-4"},
+		Rules:      []string{"NAMES-1", "BUF-1", "STALE-3", "FP-3", "FP-4", "UNWRITE-1"},
 		Decided:    "(in progress)",
 		NotDecided: "(in progress)",
 		Technique:  "path-sensitive go/cfg dataflow",
 	},
 	"C16": {
-		Rules:      []string{"STALE-1", "TXN-2", "NAMES-1", "BUF-1", "FP-2"},
+		Rules:      []string{"STALE-1", "TXN-2", "NAMES-1", "BUF-1", "FP-2", "PTR-1"},
 		Decided:    "(in progress)",
 		NotDecided: "(in progress)",
 		Technique:  "path-sensitive go/cfg dataflow",
